@@ -11,6 +11,7 @@ use std::collections::BTreeMap;
 use std::fs;
 use std::path::Path;
 use tensor_chain::distributed_tx::verif_clock;
+use tensor_store::TensorStore;
 use tensor_chain::{
     ConsensusManager, DeltaVector, DistributedTxConfig, DistributedTxCoordinator, PrepareVote, PrepareVoteKind, TxOutcome,
     TxPhase, TxWal, TxWalEntry, VoteRecordError,
@@ -369,14 +370,32 @@ fn inst_b(path: &Path, prefix: &[u8]) -> Option<DistributedTxCoordinator> {
     Some(bco)
 }
 
+/// a restart from an older SNAPSHOT of the coordinator (save_to_store at a step boundary) with the
+/// log attached: statistics of recover_from_wal, the pending table, the handles whose key is locked
+type SObs = (Vec<u64>, CObs, Vec<u64>);
+fn sobs_coq(o: &SObs) -> String {
+    format!("({}, {}, {})", list(o.0.iter().map(|x| n(*x))), cobs_coq(&o.1), list(o.2.iter().map(|x| n(*x))))
+}
+fn inst_c(path: &Path, prefix: &[u8], snap: &TensorStore, ids: &Ids, t: u64) -> Option<SObs> {
+    fs::write(path, prefix).unwrap();
+    let wal = TxWal::open(path).ok()?;
+    let c = DistributedTxCoordinator::load_from_store("n", snap, ConsensusManager::default_config(), DistributedTxConfig::default()).ok()?.with_wal(wal);
+    let st = c.recover_from_wal().ok()?;
+    let stats = vec![st.pending_prepare as u64, st.pending_commit as u64, st.pending_abort as u64, st.lock_releases_recovered as u64];
+    let locked: Vec<u64> = (0..ids.handle_real.len() as u64).filter(|h| c.lock_manager().is_locked(&format!("key-{h}"))).collect();
+    Some((stats, observe(&c, ids, t), locked))
+}
+
 /// restart at every offset of `offsets`; three phases so that the process-global clock hook has
 /// one value per phase while the restarts themselves run on several threads
-fn restart_all(scratch: &Path, fbytes: &[u8], offsets: &[u64], ids: &Ids, t: u64, now: u64) -> Vec<(u64, Option<RObs>)> {
+#[allow(clippy::too_many_arguments, clippy::type_complexity)]
+fn restart_all(scratch: &Path, fbytes: &[u8], offsets: &[u64], ids: &Ids, t: u64, now: u64, ends: &[u64], snaps: &[TensorStore]) -> (Vec<(u64, Option<RObs>)>, Vec<(u64, u64, Option<SObs>)>) {
     let nthreads = 12usize.min(offsets.len().max(1));
     let chunk = ((offsets.len() + nthreads - 1) / nthreads.max(1)).max(1);
     verif_clock::set(Some(now));
     let mut av: Vec<(u64, Option<AObs>)> = vec![];
     let mut bv: Vec<(u64, Option<DistributedTxCoordinator>)> = vec![];
+    let mut cv: Vec<(u64, u64, Option<SObs>)> = vec![];
     std::thread::scope(|sc| {
         let mut hs = vec![];
         for (ti, part) in offsets.chunks(chunk).enumerate() {
@@ -385,19 +404,28 @@ fn restart_all(scratch: &Path, fbytes: &[u8], offsets: &[u64], ids: &Ids, t: u64
             hs.push(sc.spawn(move || {
                 let mut oa = vec![];
                 let mut ob = vec![];
+                let mut oc = vec![];
                 for &k in part {
                     oa.push((k, inst_a(&path, &fbytes[..k as usize], ids, t)));
+                    // instance C: the snapshot saved at the last step boundary before the crash and the
+                    // one before it (a snapshot is saved now and then, the log is written at once)
+                    let a = ends.iter().filter(|e| **e <= k).count();
+                    oc.push((k, a as u64, inst_c(&path, &fbytes[..k as usize], &snaps[a], ids, t)));
+                    if a >= 1 {
+                        oc.push((k, a as u64 - 1, inst_c(&path, &fbytes[..k as usize], &snaps[a - 1], ids, t)));
+                    }
                     // one file per B instance: they stay open until the sweep
                     let pb = pathb.with_extension(format!("b{ti}-{k}"));
                     ob.push((k, inst_b(&pb, &fbytes[..k as usize]), pb));
                 }
                 let _ = fs::remove_file(&path);
-                (oa, ob)
+                (oa, ob, oc)
             }));
         }
         for h in hs {
-            let (oa, ob) = h.join().unwrap();
+            let (oa, ob, oc) = h.join().unwrap();
             av.extend(oa);
+            cv.extend(oc);
             for (k, c, pb) in ob {
                 let _ = fs::remove_file(&pb);
                 bv.push((k, c));
@@ -416,7 +444,9 @@ fn restart_all(scratch: &Path, fbytes: &[u8], offsets: &[u64], ids: &Ids, t: u64
     }
     verif_clock::set(Some(now));
     av.sort_by_key(|x| x.0);
-    av.into_iter()
+    cv.sort_by_key(|x| (x.1, x.0));
+    let rv = av
+        .into_iter()
         .map(|(k, a)| {
             let ro = match (a, touts.remove(&k).flatten()) {
                 (Some((stats, o0, probes, o1)), Some(tv)) => Some((stats, o0, probes, o1, tv)),
@@ -424,7 +454,8 @@ fn restart_all(scratch: &Path, fbytes: &[u8], offsets: &[u64], ids: &Ids, t: u64
             };
             (k, ro)
         })
-        .collect()
+        .collect();
+    (rv, cv)
 }
 
 /// the oracle of Run.v on one crash point, only to label the evidence
@@ -509,12 +540,19 @@ struct GenOut {
 type Pick = Box<dyn FnMut(u64, u64, &[u64], &[(u64, u64)]) -> u64>;
 
 #[allow(clippy::too_many_arguments)]
-fn run_generation(c: DistributedTxCoordinator, wal: &Path, scratch: &Path, steps: &mut [Step], ids: &mut Ids, t: u64, clock: &mut u64, pick: &mut Pick, dist: &mut Dist) -> (GenOut, Vec<u8>, u64, Vec<(CObs, Vec<Step>)>) {
+fn run_generation(c: DistributedTxCoordinator, wal: &Path, scratch: &Path, steps: &mut [Step], ids: &mut Ids, t: u64, clock: &mut u64, pick: &mut Pick, dist: &mut Dist, owners: &[(u64, u64)]) -> (GenOut, Vec<u8>, u64, Vec<(CObs, Vec<Step>)>) {
     let now0 = *clock;
     let base = fs::metadata(wal).map(|m| m.len()).unwrap_or(0);
     let mut lives = vec![observe(&c, ids, t)];
     let mut outs = vec![];
     let mut ends = vec![];
+    // a snapshot of the coordinator (pending table + lock table) at every step boundary
+    let save = |c: &DistributedTxCoordinator| {
+        let st = TensorStore::new();
+        let _ = c.save_to_store("n", &st);
+        st
+    };
+    let mut snaps: Vec<TensorStore> = vec![save(&c)];
     for s in steps.iter_mut() {
         dist.hit(&format!("step.{}", format!("{s:?}").split('(').next().unwrap_or("?")));
         let out = apply(&c, s, ids, wal, clock);
@@ -522,6 +560,7 @@ fn run_generation(c: DistributedTxCoordinator, wal: &Path, scratch: &Path, steps
         outs.push(out);
         lives.push(observe(&c, ids, t));
         ends.push(fs::metadata(wal).map(|m| m.len()).unwrap_or(0));
+        snaps.push(save(&c));
     }
     drop(c);
     let fbytes = fs::read(wal).unwrap_or_default();
@@ -530,7 +569,41 @@ fn run_generation(c: DistributedTxCoordinator, wal: &Path, scratch: &Path, steps
     let mut runs: Vec<(u64, u64, u64, Option<RObs>)> = vec![];
     let mut fail = None;
     let offsets: Vec<u64> = (base..=len).collect();
-    for (k, ro) in restart_all(scratch, &fbytes, &offsets, ids, t, *clock) {
+    let (rv, cv) = restart_all(scratch, &fbytes, &offsets, ids, t, *clock, &ends, &snaps);
+    // snapshot restarts: the oracle of Run.v (oracle_snap) only to label the evidence
+    let mut sruns: Vec<(u64, u64, u64, u64, Option<SObs>)> = vec![];
+    let mut sfail: Option<String> = None;
+    for (k, b_, so) in cv {
+        if sfail.is_none() {
+            match &so {
+                None => sfail = Some(format!("crash at byte {k} of {len}, coordinator loaded from the snapshot saved after {b_} steps: recovery FAILED")),
+                Some((_, (o0, _), locked)) => {
+                    for m in 0..t {
+                        let real = ids.tx(m);
+                        let complete = recs.iter().any(|(e, x)| *e <= k && matches!(x, TxWalEntry::TxComplete { tx_id, .. } if *tx_id == real));
+                        if complete {
+                            let held: Vec<u64> = owners.iter().filter(|(h, o)| *o == m && locked.contains(h)).map(|(h, _)| *h).collect();
+                            if o0[m as usize].is_some() || !held.is_empty() {
+                                sfail = Some(format!(
+                                    "crash at byte {k} of {len}, coordinator loaded from the snapshot saved after {b_} steps, then recover_from_wal: tx {m} has a logged outcome but is pending {:?} and its lock handles {:?} are still locked",
+                                    o0[m as usize], held
+                                ));
+                                break;
+                            }
+                        }
+                    }
+                }
+            }
+        }
+        match sruns.last_mut() {
+            Some((from, to, step, bb, o)) if *bb == b_ && *o == so && (*from == *to || k - *to == *step) => {
+                *step = k - *to;
+                *to = k;
+            }
+            _ => sruns.push((k, k, 1, b_, so)),
+        }
+    }
+    for (k, ro) in rv {
         if fail.is_none() {
             if let Some(f) = oracle_label(&recs, ids, k, &ro, t) {
                 fail = Some(format!("crash at byte {k} of {len}: {f}"));
@@ -549,6 +622,21 @@ fn run_generation(c: DistributedTxCoordinator, wal: &Path, scratch: &Path, steps
     if fail.is_none() {
         fail = live_label(&recs, ids, steps, &outs, &ends, base);
     }
+    if fail.is_none() {
+        // a recovery call on the live coordinator keeps every pending transaction as it is
+        for (i, st) in steps.iter().enumerate() {
+            if matches!(st, Step::Recover) && outs[i].first() == Some(&4) {
+                for m in 0..t as usize {
+                    if lives[i].0[m].is_some() && lives[i + 1].0[m] != lives[i].0[m] {
+                        fail = Some(format!("step {i}: recover_from_wal() on the live coordinator changed pending tx {m} from {:?} to {:?}", lives[i].0[m], lives[i + 1].0[m]));
+                    }
+                }
+            }
+        }
+    }
+    if fail.is_none() {
+        fail = sfail;
+    }
     let phase_ends: Vec<(u64, u64)> = recs
         .iter()
         .filter(|(e, _)| *e > base)
@@ -559,7 +647,7 @@ fn run_generation(c: DistributedTxCoordinator, wal: &Path, scratch: &Path, steps
         .collect();
     let chosen = pick(base, len, &ends, &phase_ends);
     let term = format!(
-        "({}, {}, {}, {}, {}, {}, {}, {}, {}, {})",
+        "({}, {}, {}, {}, {}, {}, {}, {}, {}, {}, {})",
         now0,
         list(steps.iter().map(|s| s.coq())),
         list(outs.iter().map(|o| list(o.iter().map(|x| n(*x))))),
@@ -569,7 +657,8 @@ fn run_generation(c: DistributedTxCoordinator, wal: &Path, scratch: &Path, steps
         bytes(&fbytes),
         list(recs.iter().map(|(e, x)| format!("({}, {})", e, entry_coq(x, ids)))),
         list(runs.iter().map(|(a, z, st, o)| format!("({}, {}, {}, {})", a, z, st, opt(o.as_ref().map(robs_coq))))),
-        chosen
+        chosen,
+        list(sruns.iter().map(|(a, z, st, bb, o)| format!("({}, {}, {}, {}, {})", a, z, st, bb, opt(o.as_ref().map(sobs_coq)))))
     );
     let human = format!("clock={} steps={:?} replies={:?} base={} len={} chosen_crash={} final_pending={:?}", now0, steps, outs, base, len, chosen, lives.last().unwrap());
     (GenOut { term, human, fail }, fbytes, chosen, vec![])
@@ -625,6 +714,8 @@ fn run_case(cx: &mut Ctx, label: &str, mut gens: Vec<Vec<Step>>, mut picks: Vec<
     let _ = fs::remove_file(&wal);
     let t = gens.iter().flatten().filter(|s| matches!(s, Step::Begin(..))).count() as u64;
     let mut ids = Ids::default();
+    // (lock handle, transaction) of every lock taken in the case
+    let owners: Vec<(u64, u64)> = gens.iter().flatten().filter_map(|s| if let Step::Lock(h, tx) = s { Some((*h, *tx)) } else { None }).collect();
     let mut clock: u64 = 1_000_000;
     let mut terms = vec![];
     let mut humans = vec![];
@@ -643,7 +734,7 @@ fn run_case(cx: &mut Ctx, label: &str, mut gens: Vec<Vec<Step>>, mut picks: Vec<
             humans.push(format!("gen{}: recover_from_wal failed", gi + 1));
             break;
         }
-        let (out, fbytes, chosen, _) = run_generation(c, &wal, &scratch, &mut gens[gi], &mut ids, t, &mut clock, &mut picks[gi], &mut cx.dist);
+        let (out, fbytes, chosen, _) = run_generation(c, &wal, &scratch, &mut gens[gi], &mut ids, t, &mut clock, &mut picks[gi], &mut cx.dist, &owners);
         if fail.is_none() {
             if let Some(f) = &out.fail {
                 fail = Some(format!("generation {}: {}", gi + 1, f));
@@ -657,7 +748,7 @@ fn run_case(cx: &mut Ctx, label: &str, mut gens: Vec<Vec<Step>>, mut picks: Vec<
     let _ = fs::remove_file(&wal);
     let all: Vec<Step> = gens.iter().flatten().cloned().collect();
     // the terms were printed with the ids known at the time; the table is built last (all ids known)
-    let term = format!("({}, {}, {})", table(&ids, &all), t, list(terms));
+    let term = format!("({}, {}, {}, {})", table(&ids, &all), t, list(owners.iter().map(|(h, o)| format!("({h}, {o})"))), list(terms));
     let human = format!("{label}: {}{}", humans.join(" | "), fail.as_ref().map(|f| format!(" ORACLE-FALSE: {f}")).unwrap_or_default());
     cx.w.push(&term, &human, all.len() >= 3);
     verif_clock::set(None);
@@ -894,8 +985,8 @@ fn main() {
         vec![0, 100],
     );
     // crash 1 inside commit() between Prepared -> Committing and TxComplete{Committed}; the restarted
-    // coordinator ABORTS the restored Committing transaction (abort() has no phase check) and logs it
-    // completely; every later incarnation must find nothing to commit
+    // coordinator is asked to ABORT the restored Committing transaction: refused (the decision is
+    // COMMIT), nothing is logged; every later incarnation still holds it as Committing and completes it
     run_case(
         &mut cx,
         "corpus abort-of-restored-committing",
@@ -950,10 +1041,11 @@ fn main() {
 
     // complete_commit / complete_abort write nothing: a transaction restored as Committing and finished
     // with complete_commit is back as Committing after the next restart (its completion was never
-    // logged -- only commit() writes TxComplete{Committed}), where abort() / the sweeper abort it
+    // logged -- only commit() writes TxComplete{Committed}); abort() refuses it and the sweeper skips
+    // it, it is completed (again) by complete_commit only
     run_case(
         &mut cx,
-        "corpus complete-commit-is-not-durable (abort)",
+        "corpus restored-committing-survives-abort",
         vec![
             vec![Step::Begin(0, vec![0]), Step::Lock(0, 0), Step::Vote(0, 0, V::Yes(0)), Step::Commit(0, vec![])],
             vec![Step::Commit(0, vec![]), Step::CompleteCommit(0), Step::CompleteCommit(0)],
@@ -964,7 +1056,7 @@ fn main() {
     );
     run_case(
         &mut cx,
-        "corpus complete-commit-is-not-durable (sweep)",
+        "corpus restored-committing-survives-sweep",
         vec![
             vec![Step::Begin(0, vec![0]), Step::Lock(0, 0), Step::Vote(0, 0, V::Yes(0)), Step::Commit(0, vec![])],
             vec![Step::CompleteCommit(0)],
@@ -972,6 +1064,40 @@ fn main() {
         ],
         vec![pick_window(2, 4), pick_end(), pick_end()],
         vec![0, 100, 100],
+    );
+
+    // the coordinator is reloaded from an OLDER snapshot (pending table + lock table) with the log
+    // attached: transactions the log completed since -- aborted with YES-vote locks and a lock that
+    // never reached a vote, swept by the timeout, committed -- must not be pending and must hold no
+    // lock after recover_from_wal (crash at every byte, snapshot of the last two step boundaries)
+    run_case(
+        &mut cx,
+        "corpus completed-since-the-snapshot",
+        vec![
+            vec![
+                Step::Begin(0, vec![0, 1]), Step::Lock(0, 0), Step::Vote(0, 0, V::Yes(0)), Step::Lock(1, 0), Step::Vote(0, 1, V::Yes(1)), Step::Lock(2, 0), Step::Abort(0),
+                Step::Begin(1, vec![2]), Step::Lock(3, 1), Step::Vote(1, 2, V::Yes(3)), Step::Timeouts(1_000_000 + 6000, vec![]),
+                Step::Begin(2, vec![0]), Step::Lock(4, 2), Step::Vote(2, 0, V::Yes(4)), Step::Commit(2, vec![]),
+            ],
+            vec![Step::Commit(0, vec![]), Step::Commit(1, vec![]), Step::Begin(3, vec![1]), Step::Lock(5, 3), Step::Vote(3, 1, V::Yes(5)), Step::Abort(3)],
+        ],
+        vec![pick_end(), pick_end()],
+        vec![0, 100],
+    );
+    // repeated recover_from_wal() calls on a restarted coordinator while further transactions are
+    // collecting votes: they stay, their outstanding votes are accepted, abort releases their locks
+    run_case(
+        &mut cx,
+        "corpus recovery-calls-with-transactions-mid-vote",
+        vec![
+            vec![Step::Begin(0, vec![0]), Step::Lock(0, 0), Step::Vote(0, 0, V::Yes(0))],
+            vec![
+                Step::Begin(1, vec![0, 1]), Step::Lock(1, 1), Step::Vote(1, 0, V::Yes(1)), Step::Recover, Step::Lock(2, 1), Step::Vote(1, 1, V::Yes(2)),
+                Step::Begin(2, vec![2]), Step::Lock(3, 2), Step::Recover, Step::Abort(2), Step::Begin(3, vec![1]), Step::Lock(4, 3), Step::Recover, Step::Timeouts(1_000_000 + 100 + 6000, vec![]),
+            ],
+        ],
+        vec![pick_end(), pick_end()],
+        vec![0, 100],
     );
 
     // ---------------- seeded ----------------
